@@ -499,6 +499,7 @@ pub fn run(tier: &str, seed: u64, only: Option<&str>) -> Run {
 
     // pattern generators in isolation (MPH / MPP / MPE lines)
     crate::c19_mania::isolated(&mut run, tier, seed, only);
+    crate::c19_mania::occupancy_search(&mut run, tier, seed, only);
 
     let n_cases = if thorough { 30000 } else { 2500 };
     for ci in 0..n_cases {
